@@ -27,7 +27,7 @@ MAXTASKS = 1
 
 def plan(tier, seed):
     names = sani.group_names(tier)
-    shards = [("asan", g, tier) for g in names] + [("diff", g, tier) for g in names]
+    shards = [("asan", g, tier) for g in names] + [("diff", g, tier) for g in names] + [("stray", g, tier) for g in names]
     k = seed % len(shards)
     return shards[k:] + shards[:k]
 
@@ -135,8 +135,42 @@ def same_loose(a, b):
     return True
 
 
+def _run_stray(desc):
+    """every write of a kernel call must land in its arguments, in heap it allocated itself, or on the stack: the tsan-instrumented
+    build on the vrt runtime sees every store of the whole call (callers mode); a store anywhere else is a write to static/global
+    data, i.e. outside the arrays the kernel was handed"""
+    _, group, tier = desc
+    from vt.vrt import VRT, stray_writes_of
+    sh = Shard()
+    sani.NP_["NPROPERTY"], sani.NP_["NPROPERTY2D"] = nprops()
+    V = VRT()
+    seen_kernels = {}
+    for idx, call in enumerate(sani.calls_of(group, tier)):
+        k = call.kernel
+        # a bounded number of calls per kernel (the first ones are the small shapes), every kernel at least 40 times
+        if seen_kernels.get(k, 0) >= (40 if tier == "quick" else 400):
+            continue
+        if any(a[0] == "a" and a[1].nbytes > 2_000_000 for a in call.args):
+            continue
+        seen_kernels[k] = seen_kernels.get(k, 0) + 1
+        r = stray_writes_of(V, call)
+        if r is None:
+            sh.count("calls_with_too_many_arguments_for_the_trampoline")
+            continue
+        if r[0] > 0:
+            sh.violation("write-outside-arguments:%s" % k, {"kind": "stray", "group": group, "tier": tier, "index": idx, "call": call.describe()[:300]},
+                         {"stores_outside": r[0], "first_address": hex(r[1]), "what": "the kernel stored to memory that is neither an argument, nor "
+                          "heap it allocated, nor stack (static or global data)"})
+        sh.evaluations += 1
+        sh.nontrivial += 1
+        sh.states += 1
+        sh.outcomes.add(("stray", k))
+    sh.sample({"monitor": "stores outside the arguments (vrt, whole call instrumented)", "group": group, "kernels": sorted(seen_kernels)}, limit=1)
+    return sh
+
+
 def run_shard(desc):
-    return {"asan": _run_asan, "diff": _run_diff}[desc[0]](desc)
+    return {"asan": _run_asan, "diff": _run_diff, "stray": _run_stray}[desc[0]](desc)
 
 
 def replay(case):
